@@ -165,6 +165,12 @@ public:
                 else
                     p.add("h" + std::to_string(h), {6, 0, 0}); // GetSemaphore
             }
+            // end the script with sends half of the time: a request lost on the LAST send is never rescued by later traffic
+            if (r.chance(1, 2)) {
+                int tail = (int)r.range(1, 3);
+                for (int i = 0; i < tail; ++i)
+                    p.add("h" + std::to_string(h), {0, hosts == 1 ? (s64)r.below(3) : (h == 1 ? (s64)r.below(2) : 2), 0});
+            }
         }
         return p;
     }
@@ -295,7 +301,12 @@ public:
         t.MMIOWrite(0x30, 0x0100);
         if (timer_irq) {
             t.MMIOWrite(0x208, 0x0400); // IRQ 10 (timer 0) -> int1
-            t.MMIOWrite(0x24, (u16)plan.knob("timer_period", 23));
+            // a periodic source must leave the guest time to run: its handler takes about ten cycles, so a period below
+            // that would starve the main loop for ever (a livelock of the guest program, not of the emulator)
+            u16 period = (u16)plan.knob("timer_period", 23);
+            if (plan.knob("timer_periodic", 0) && period < 40)
+                period = (u16)(period + 40);
+            t.MMIOWrite(0x24, period);
             t.MMIOWrite(0x26, 0);
             // single shot, armed once here and then again by every mailbox interrupt (a periodic timer would rescue a lost
             // mailbox request at its next expiry and hide it)
